@@ -73,6 +73,16 @@ def run(pid, tier, seed, replay, cfg, repo, env, scratch, t0):
     open(modfile, "w").write(gomod)
     shutil.copy(os.path.join(HARNESS, "go.sum"), os.path.join(scratch, "go.sum"))
 
+    # optional generator step run before the build (e.g. reference file derived from table keys)
+    if cfg.get("pre_cmd"):
+        pe = dict(env)
+        pe.update({"VERIF_REPO": repo, "VERIF_MODFILE": modfile, "VERIF_SCRATCH": scratch, "VERIF_TIER": tier})
+        argv = [a.replace("{modfile}", modfile).replace("{scratch}", scratch).replace("{repo}", repo) for a in cfg["pre_cmd"]]
+        p = subprocess.run(argv, cwd=HARNESS, env=pe, stdout=subprocess.PIPE, stderr=subprocess.STDOUT, text=True)
+        if p.returncode != 0:
+            print(p.stdout[-4000:])
+            die("pre_cmd failed")
+
     binpath = os.path.join(scratch, "t.test")
     tags = "verif"
     if cfg.get("tags"):
